@@ -135,6 +135,12 @@ Node = Union[
 ]
 
 
+def _is_digit(ch: str) -> bool:
+    """One of 0-9. str.isdigit() also accepts superscripts and the digits of
+    other scripts, which are ordinary pattern characters."""
+    return len(ch) == 1 and "0" <= ch <= "9"
+
+
 class RegexParser:
     """Parser for JavaScript regex patterns."""
 
@@ -302,7 +308,7 @@ class RegexParser:
         # Check for empty {} which is invalid
         if i < len(self.pattern) and self.pattern[i] == "}":
             return True  # Will be caught as error in _parse_brace_quantifier
-        while i < len(self.pattern) and self.pattern[i].isdigit():
+        while i < len(self.pattern) and _is_digit(self.pattern[i]):
             i += 1
         if i == self.pos + 1:  # No digits after {
             return False
@@ -312,7 +318,7 @@ class RegexParser:
             return True
         if self.pattern[i] == ",":
             i += 1
-            while i < len(self.pattern) and self.pattern[i].isdigit():
+            while i < len(self.pattern) and _is_digit(self.pattern[i]):
                 i += 1
             if i < len(self.pattern) and self.pattern[i] == "}":
                 return True
@@ -474,10 +480,10 @@ class RegexParser:
             return Anchor("not_boundary")
 
         # Backreference
-        if ch.isdigit() and ch != "0":
+        if _is_digit(ch) and ch != "0":
             # Parse multi-digit backreference
             num = ch
-            while self._peek() is not None and self._peek().isdigit():
+            while self._peek() is not None and _is_digit(self._peek()):
                 num += self._advance()
             group_num = int(num)
             if group_num > self.group_count:
@@ -597,7 +603,7 @@ class RegexParser:
 
         # Parse min
         min_str = ""
-        while self._peek() is not None and self._peek().isdigit():
+        while self._peek() is not None and _is_digit(self._peek()):
             min_str += self._advance()
 
         if not min_str:
@@ -609,7 +615,7 @@ class RegexParser:
         if self._match(","):
             # Check for max
             max_str = ""
-            while self._peek() is not None and self._peek().isdigit():
+            while self._peek() is not None and _is_digit(self._peek()):
                 max_str += self._advance()
 
             if max_str:
